@@ -84,6 +84,10 @@ class Gen:
     def users(self, kinds=None):
         return [int(f[1:]) for f, o in self.own.items() if o == "U" and int(f[1:]) in self.ukind
                 and (kinds is None or self.ukind[int(f[1:])] in kinds)]
+    def quiet_loop(self):
+        """nothing would happen in an extra uv_run: async fs requests turn the loop until their callback ran"""
+        return not self.busy() and not any(h["st"] == "closing" or (h["kind"] == "proc" and h["st"] == "live") or
+                                           (h["st"] == "live" and h["connected"]) for h in self.hs)
     def busy(self):
         return any(h["st"] == "live" and (h["pending"] > 0 or h["inflight"] > 0) for h in self.hs)
 
@@ -105,7 +109,7 @@ class Gen:
         r, rng = self.rng.below(100), self.rng
         b = self.bias
         if b and rng.below(3) == 0:
-            r = {"spawn": 95, "accept": 40, "ipc": 60, "stdio": 20, "fs": 80, "bind": 30}.get(b, r)
+            r = {"spawn": 95, "accept": 40, "ipc": 60, "stdio": 20, "fs": 88, "bind": 30, "misc": 92}.get(b, r)
         if not self.loop:
             if rng.below(4) == 0:
                 return self.emit(rng.choice(["uv_pipe 1 0", "uv_socketpair 0 0", "ufd pipe"]))
@@ -233,18 +237,34 @@ class Gen:
         elif r < 90:
             v = rng.below(6)
             if v < 3:
-                self.emit(*self.maybe_fail([("open", 1, [24, 13])]), "fs_open " + rng.choice(["ok", "creat", "missing"]))
+                asy = " async" if self.quiet_loop() and rng.below(2) == 0 else ""
+                self.emit(*self.maybe_fail([("open", 1, [24, 13])]), "fs_open " + rng.choice(["ok", "creat", "missing"]) + asy)
             elif v == 3:
                 self.emit("fs_mkstemp")
             elif v == 4:
-                self.emit(*self.maybe_fail([("open", 1, [24]), ("open", 2, [24, 13])], 2), "fs_copyfile " + rng.choice(["ok", "ok", "missing"]))
+                asy = " async" if self.quiet_loop() and rng.below(2) == 0 else ""
+                self.emit(*self.maybe_fail([("open", 1, [24]), ("open", 2, [24, 13])], 3), "fs_copyfile " +
+                          rng.choice(["ok", "missing", "same", "link", "exists", "excl", "ficlone"]) + asy)
             else:
                 fs = [int(f[1:]) for f, o in self.own.items() if o == "U" and int(f[1:]) not in self.ukind]
                 if fs:
                     self.emit(f"fs_close f{rng.choice(fs)}")
         elif r < 93:
-            v = rng.below(5)
-            if v == 0:
+            v = rng.below(8)
+            if v >= 6:                                                  # calls outside the catalogue: monitors only
+                self.emit("util " + rng.choice(["cpu_info", "exepath", "memory", "uptime", "ifaddrs", "random", "passwd",
+                                                "scandir", "readdir", "stat", "realpath", "mkdtemp"]))
+            elif v == 5:                                                # a full backlog (more than any per-wakeup batch)
+                sv = [i for i in self.live("tcp") + self.live("pipe") if self.hs[i]["listening"]]
+                if sv and not self.busy() and sum(h["pending"] for h in self.hs) < 80:
+                    s_ = rng.choice(sv)
+                    self.emit(f"policy h{s_} " + rng.choice(["hold", "hold", "accept"]))
+                    self.emit(f"flood h{s_} {rng.choice([2, 5, 31, 32, 33, 40, 70])}")
+                    inj = self.maybe_fail([("accept4", 1, [24, 23]), ("accept4", 2, [24]), ("accept4", 33, [24, 11])], 2)
+                    if inj and inj[0].startswith("fail accept4 1") and rng.below(2):
+                        inj += self.maybe_fail([("open", 1, [24])], 2)
+                    self.emit(*inj, "run")
+            elif v == 0:
                 self.emit("async_init")
             elif v == 1:
                 self.emit("signal_start 10")
@@ -466,7 +486,7 @@ def run(ctx):
     n = ctx.scale(150, 1500)
     maxops = ctx.scale(28, 45)
     seeds = [ctx.rng.fork() for _ in range(n)]
-    biases = [None, None, "spawn", "accept", "ipc", "stdio", "fs", "bind"]
+    biases = [None, None, "spawn", "accept", "ipc", "stdio", "fs", "bind", "misc"]
     def mk(i):
         return Gen(ctx, seeds[i], seeds[i].range(8, maxops), biases[i % len(biases)]).build()
     def go(ip):
@@ -482,9 +502,10 @@ def run(ctx):
     run_batch(progs, 0)
     # generated programs in chunks, under a wall-clock budget (the machine may be shared): the number actually
     # evaluated is recorded
-    budget = ctx.scale(40, 480)
+    budget = ctx.scale(35, 480)
     done, chunk = 0, ctx.scale(50, 100)
-    while done < n and time.time() - ctx.t0 < budget:
+    tgen = time.time()        # the budget covers program generation + runs, not the Lean build / lock waits before
+    while done < n and (done == 0 or time.time() - tgen < budget):
         k = min(chunk, n - done)
         with ThreadPoolExecutor(min(NCPU, 12)) as ex:
             batch = list(ex.map(mk, range(done, done + k)))
